@@ -20,7 +20,7 @@ LIGHT = {"Pre", "Init"} | TASKS
 # class -> {slot: kind}
 SLOTS = {
     "Leaf": dict(i="int!", f="float", s="str", b="bool", oi="oint", os_="ostr", e="Color", sh="oShape", m="int",
-                 op="str", mp="opath"),
+                 op="str", mp="opath", od="oint"),
     "Inner": dict(x="int", name="str", c="ocfg", d="ocfg", mc="ocfg", oc="ocfg"),
     "Bag": dict(li="lint", lf="olfloat", ls="olstr", lc="lcfg", dc="dcfg", di="odint", ds="odstr", ll="ollint",
                 dd="oddint", ld="oldint", dl="odlcfg", mlc="lcfg", lp="olpath", le="olColor", ddd="odddint"),
@@ -34,7 +34,7 @@ SLOTS = {
     "NewT": dict(x="int", c="ocfg"),
     "OldT": dict(x="int", c="ocfg"),
     "V1": dict(x="int!", c="ocfg"),
-    "V2": dict(x="int!", c="ocfg", y="int", aa="str", z="str", oz="ocfg"),
+    "V2": dict(x="int!", c="ocfg", y="int", aa="str", z="str", oz="ocfg", n0="int", fl="bool", em="str", el="lint"),
     "K1": dict(x="int"), "K2": dict(x="int"),
     "W1": dict(x="int", c="ocfg"), "W2": dict(x="int", c="ocfg"),
     "S2": dict(a="str!", b="str"),
@@ -47,7 +47,7 @@ CLASS_WEIGHTS = [("Leaf", 6), ("Inner", 7), ("Bag", 5), ("Req", 1), ("TaskA", 2)
 IGNORED = {"Leaf": {"m", "op", "mp"}, "Inner": {"mc", "oc"}, "Bag": {"mlc", "lp"}, "Init": {"w"}, "V2": {"z"}}
 DEFAULTS = {("Leaf", "f"): 1.5, ("Leaf", "s"): "a", ("Leaf", "b"): False, ("Leaf", "e"): "RED", ("Inner", "x"): 0,
             ("Inner", "name"): "", ("TaskA", "x"): 0, ("TaskOut", "x"): 0, ("Pre", "v"): 0, ("Init", "v"): 0,
-            ("NewL", "i"): 0, ("OldL", "i"): 0, ("NewT", "x"): 0, ("OldT", "x"): 0, ("V2", "y"): 3, ("V2", "aa"): "dflt",
+            ("NewL", "i"): 0, ("OldL", "i"): 0, ("NewT", "x"): 0, ("OldT", "x"): 0, ("V2", "y"): 3, ("V2", "aa"): "dflt", ("V2", "n0"): 0, ("V2", "fl"): False, ("V2", "em"): "", ("Leaf", "od"): 5,
             ("K1", "x"): 0, ("K2", "x"): 0, ("W1", "x"): 0, ("W2", "x"): 0, ("S2", "b"): "", ("TaskSelf", "x"): 0, ("EH", "x"): 0}
 
 
@@ -402,7 +402,10 @@ def neutral_edit(rng, desc, g):
                     nd["kw"].append([s, val])                                   # set it to its default
                 return d, kind
             if kind == "optional-none":
-                slots = [s for s, k in SLOTS[cls].items() if k.startswith("o") and s not in IGNORED.get(cls, ())]
+                # "an optional left unset": only optionals WITHOUT a default (for an optional with a default,
+                # None is a value different from the default and is part of the signature)
+                slots = [s for s, k in SLOTS[cls].items() if k.startswith("o") and s not in IGNORED.get(cls, ())
+                         and (cls, s) not in DEFAULTS]
                 slots = [s for s in slots if s not in kw or kw[s] == NONE]
                 if not slots:
                     continue
@@ -434,6 +437,10 @@ def neutral_edit(rng, desc, g):
                     nd["kw"].append(["z", vstr(rng.choice(["m1", "m2"]))])
                 if rng.random() < 0.3:
                     nd["kw"].append(["y", vint(3)])
+                if rng.random() < 0.3:
+                    nd["kw"].append(["n0", vint(0)])
+                if rng.random() < 0.3:
+                    nd["kw"].append(["fl", {"t": "bool", "v": False}])
                 return d, kind
             if kind == "meta-member":
                 if cls != "Bag":
@@ -482,7 +489,8 @@ def signature_edit(rng, desc):
     d = copy.deepcopy(desc)
     n = len(d["nodes"])
     kinds = ["scalar", "list-swap", "list-move", "dict-rename", "dict-move", "sibling-move", "list-len", "constant",
-             "type-identifier", "pre-task", "init-order", "enum-member", "dict-swap-values", "nested-move"]
+             "type-identifier", "pre-task", "init-order", "enum-member", "dict-swap-values", "nested-move",
+             "optional-none-vs-default", "listdict-move", "listdict-empty-swap"]
     rng.shuffle(kinds)
     assigned = {(a["n"], a["name"]) for a in d["actions"] if a["a"] == "set"}
     for kind in kinds:
@@ -604,6 +612,53 @@ def signature_edit(rng, desc):
                     put("os_", s1)
                     return d, kind, i, "raw"
                 continue
+            if kind == "optional-none-vs-default":
+                # an optional parameter with a non-None default: None is a different value than the default
+                if cls != "Leaf" or (i, "od") in assigned:
+                    continue
+                cur = kw.get("od")
+                if cur is None or cur == vint(5):
+                    put("od", NONE)
+                elif cur == NONE:
+                    nd["kw"] = [[a, b] for a, b in nd["kw"] if a != "od"]
+                else:
+                    continue
+                return d, kind, i, "raw"
+            if kind in ("listdict-move", "listdict-empty-swap"):
+                v = kw.get("ld")
+                if cls != "Bag" or not v or v == NONE or (i, "ld") in assigned:
+                    if cls == "Bag" and (i, "ld") not in assigned and kind == "listdict-move":
+                        v = {"t": "list", "v": [{"t": "dict", "v": [["batch", vint(1)], ["epochs", vint(2)]]},
+                                                {"t": "dict", "v": [["lr", vint(3)]]}]}
+                    elif cls == "Bag" and (i, "ld") not in assigned:
+                        v = {"t": "list", "v": [{"t": "dict", "v": []}, {"t": "dict", "v": [["batch", vint(1)]]}]}
+                    else:
+                        continue
+                    put("ld", v)
+                    d0 = copy.deepcopy(d)      # the pair starts from this value
+                else:
+                    d0 = None
+                v = copy.deepcopy(_kwd(nd)["ld"])
+                if len(v["v"]) < 2:
+                    continue
+                if kind == "listdict-move":
+                    src = [k for k in range(len(v["v"]) - 1) if v["v"][k]["v"]]
+                    if not src:
+                        continue
+                    k = rng.choice(src)
+                    item = v["v"][k]["v"].pop()
+                    if item[0] in [x[0] for x in v["v"][k + 1]["v"]]:
+                        continue
+                    v["v"][k + 1]["v"].append(item)
+                else:
+                    k = rng.randrange(len(v["v"]) - 1)
+                    if v["v"][k] == v["v"][k + 1]:
+                        continue
+                    v["v"][k], v["v"][k + 1] = v["v"][k + 1], v["v"][k]
+                put("ld", v)
+                if d0 is not None:
+                    desc["nodes"][i] = d0["nodes"][i]          # make the original the starting point of the pair
+                return d, kind, i, "raw"
             if kind == "constant":
                 if cls not in ("K1", "K2"):
                     continue
